@@ -20,28 +20,37 @@
 (* Presence shapes are pairwise-exhaustive over the pool of optional       *)
 (* top-level keys and candidate content keys of the type: none, every key  *)
 (* alone, every pair, all but one, all ("lite" offsets: none, singles,     *)
-(* all).                                                                   *)
+(* all; "all-only" offsets: all), plus the keys only other event types     *)
+(* keep: all of them on top of everything, and (full offsets) each alone.  *)
 (*                                                                         *)
 (* Value classes (realised by the harness):                                *)
 (*   std  the well-typed value the key normally has                        *)
 (*   imax 9007199254740991   imin -9007199254740991                        *)
 (*   esc  a string with < > & and U+2028 (escaped by Go's encoder)         *)
 (*   obj  a nested object    arr  an array    null                         *)
-(* Each key gets class FreeClasses[(index of key + offset) mod 6], so that *)
+(*   zero 0   estr ""   eobj {}   earr []   false   (values an "omit when  *)
+(*        empty" treatment would lose)   iexp 1E2 (an integer, spelt with  *)
+(*        an exponent; raw family only)                                    *)
+(* Each key gets class FreeClasses[(index of key + offset) mod 12], so that*)
 (* over the offsets every key takes every class and the keys of a shape    *)
 (* take different classes.                                                 *)
 (***************************************************************************)
 EXTENDS Redaction, Json
 
 CONSTANTS Versions,     \* room versions to enumerate
+          FullVersions, \* room versions that get the full lattice at the full offsets (the others: lite)
           Family,       \* "raw" | "pdu"
           FullOffsets,  \* offsets enumerated with the full pairwise lattice
-          LiteOffsets   \* offsets enumerated with none / singles / all only
+          LiteOffsets,  \* offsets enumerated with none / singles / all only
+          AllOnlyOffsets \* offsets enumerated with the shape "all" only (every key still takes the class)
 
 VersionsAll == AllVersions
+\* one version per (event format, redaction algorithm) combination
+VersionsPairs == {"1", "3", "6", "8", "10", "12"}
 Off0 == {0}
-Off12345 == 1..5
-OffAll == 0..5
+Off48 == {4, 8}
+OffOthers == (1..11) \ {4, 8}
+OffAll == 0..11
 OffNone == {}
 
 VARIABLES ver, e, r1, r2, phase
@@ -51,7 +60,8 @@ Types == ProtectedTypes \cup {"other"}
 \* "other" is realised as m.room.message (std) or as a custom type with escapable characters (esc)
 
 \* --- candidate keys ------------------------------------------------------------------
-TopExtras == {"unsigned", "age_ts", "redacts", "foo"}
+\* "depthx": a key of which a listed key is a proper prefix (near-coincidence)
+TopExtras == {"unsigned", "age_ts", "redacts", "foo", "depthx"}
 \* keys that differ from a listed key only in case are not listed: they must go, and must not come back
 \* under the listed spelling
 CaseVariants == {"Origin", "Depth"}
@@ -66,33 +76,44 @@ PduMandatory(v, roomless) ==
     \cup (IF EventFormat(v) = 1 THEN {"event_id"} ELSE {})
 
 KeepUnion(t) == UNION {ContentKeep(a, t) : a \in Algos}
+\* per type: unlisted keys, one key that only another type keeps, one key that extends a listed key by a letter,
+\* and keys named like top-level keys
 ConExtras(t) ==
-    CASE t = "m.room.member" -> {NestedKey, "displayname", "redacts"}
-      [] t = "m.room.create" -> {"room_version", "m.federate", "predecessor", "additional_creators", "membership"}
-      [] t = "m.room.join_rules" -> {"foo", "membership"}
-      [] t = "m.room.power_levels" -> {"notifications", "membership"}
-      [] t = "m.room.history_visibility" -> {"foo", "ban"}
-      [] t = "m.room.aliases" -> {"foo", "membership"}
-      [] t = "m.room.redaction" -> {"reason", "membership"}
+    CASE t = "m.room.member" -> {NestedKey, "displayname", "redacts", "membershipx"}
+      [] t = "m.room.create" -> {"room_version", "m.federate", "predecessor", "additional_creators", "membership", "creatorx"}
+      [] t = "m.room.join_rules" -> {"foo", "membership", "join_rulex"}
+      [] t = "m.room.power_levels" -> {"notifications", "membership", "banx"}
+      [] t = "m.room.history_visibility" -> {"foo", "ban", "history_visibilityx"}
+      [] t = "m.room.aliases" -> {"foo", "membership", "aliasesx"}
+      [] t = "m.room.redaction" -> {"reason", "membership", "redactsx"}
       [] OTHER -> {"body", "membership", "creator", "join_rule", "allow", "ban", "aliases",
-                   "history_visibility", "redacts", "join_authorised_via_users_server"}
+                   "history_visibility", "redacts", "join_authorised_via_users_server", "type", "content"}
 ConCand(t) == KeepUnion(t) \cup ConExtras(t)
+\* keys that only other event types keep (they must have no effect here): enumerated alone and all together
+AllKeepKeys == UNION {KeepUnion(t) : t \in ProtectedTypes} \cup {NestedKey}
+Foreign(t) == AllKeepKeys \ ConCand(t)
 
 \* --- value classes -----------------------------------------------------------------------
-FreeClasses == <<"imax", "esc", "obj", "null", "imin", "arr">>
+FreeClasses == <<"imax", "esc", "obj", "null", "imin", "arr", "zero", "estr", "eobj", "earr", "false", "iexp">>
+NC == Len(FreeClasses)
+NonObjectClasses == <<"imax", "esc", "null", "imin", "arr", "zero", "estr", "earr", "false">>
 KeyOrder == <<"event_id", "room_id", "sender", "state_key", "hashes", "signatures", "depth",
               "prev_events", "prev_state", "auth_events", "origin", "origin_server_ts", "membership",
-              "unsigned", "age_ts", "redacts", "foo", "Origin", "Depth",
+              "unsigned", "age_ts", "redacts", "foo", "Origin", "Depth", "depthx",
+              "membershipx", "creatorx", "join_rulex", "banx", "history_visibilityx", "aliasesx", "redactsx",
               "join_authorised_via_users_server", NestedKey, "displayname", "creator", "room_version",
               "m.federate", "predecessor", "additional_creators", "join_rule", "allow", "ban", "events",
               "events_default", "kick", "redact", "state_default", "users", "users_default", "invite",
               "notifications", "history_visibility", "aliases", "reason", "body", "type", "content">>
 KeyIdx == [k \in {KeyOrder[i] : i \in 1..Len(KeyOrder)} |-> CHOOSE i \in 1..Len(KeyOrder) : KeyOrder[i] = k]
-Free(i) == FreeClasses[(i % 6) + 1]
+\* (PDUs are built through EventBuilder.Build, which canonicalises: no exponent spelling there)
+Free(i) == LET c == FreeClasses[(i % NC) + 1] IN IF Family = "pdu" /\ c = "iexp" THEN "zero" ELSE c
 
 TopClass(k, t, off, mand) ==
     CASE k = "type" -> IF t = "other" /\ off % 2 = 1 THEN "esc" ELSE "std"
       [] k = "content" -> "std"
+      [] Family = "pdu" /\ k = "depth" -> IF off % 3 = 1 THEN "zero" ELSE "std"               \* depth 0
+      [] Family = "pdu" /\ k = "origin_server_ts" -> IF off % 3 = 2 THEN "zero" ELSE "std"    \* timestamp 0
       [] k \in mand -> "std"
       [] Family = "pdu" /\ k \in {"state_key", "redacts"} ->        \* typed as strings by the PDU parser
              IF (KeyIdx[k] + off) % 2 = 0 THEN "std" ELSE "esc"
@@ -100,7 +121,7 @@ TopClass(k, t, off, mand) ==
 
 ConClass(k, off, tpiobj) ==
     IF k = NestedKey
-    THEN (IF tpiobj THEN "obj" ELSE FreeClasses[<<1, 2, 4, 5, 6>>[(off % 5) + 1]])   \* a non-object class
+    THEN (IF tpiobj THEN "obj" ELSE NonObjectClasses[(off % Len(NonObjectClasses)) + 1])
     ELSE Free(KeyIdx[k] + 3 + off)
 
 \* shapes of content.third_party_invite when present
@@ -108,15 +129,22 @@ TpiShapes == {"signed+other", "signed", "other", "empty", "nonobj"}
 TpiOf(sh, off) ==
     LET ks == CASE sh = "signed+other" -> {"signed", "display_name"}
                 [] sh = "signed" -> {"signed"}
-                [] sh = "other" -> {"display_name"}
+                [] sh = "other" -> {"display_name", "signedx"}
                 [] OTHER -> {}
     IN [obj |-> sh # "nonobj",
         keys |-> [k \in ks |-> IF k = "signed" THEN (IF off % 2 = 0 THEN "std" ELSE Free(off)) ELSE "esc"]]
 
 \* --- presence shapes ---------------------------------------------------------------------------
 Pool(t) == ({"t"} \X (IF Family = "raw" THEN TopOptRaw ELSE TopOptPdu)) \cup ({"c"} \X ConCand(t))
-Shapes(P, lite) == {{}, P} \cup {{x} : x \in P}
-                   \cup (IF lite THEN {} ELSE {{x, y} : x, y \in P} \cup {P \ {x} : x \in P})
+\* mode: "full" | "lite" | "all"
+Shapes(P, mode) == {P}
+                   \cup (IF mode = "all" THEN {} ELSE {{}} \cup {{x} : x \in P})
+                   \cup (IF mode = "full" THEN {{x, y} : x, y \in P} \cup {P \ {x} : x \in P} ELSE {})
+\* foreign keys: all of them on top of everything (every offset), each alone (full offsets)
+ForeignShapes(t, P, mode) == {P \cup ({"c"} \X Foreign(t))}
+                             \cup (IF mode = "full" THEN {{<<"c", k>>} : k \in Foreign(t)} ELSE {})
+ModeOf(off, v) == IF off \in FullOffsets /\ v \in FullVersions THEN "full"
+                  ELSE IF off \in FullOffsets \cup LiteOffsets THEN "lite" ELSE "all"
 
 EventOf(v, t, sh, off, tsh) ==
     LET topopt == {x[2] : x \in {y \in sh : y[1] = "t"}}
@@ -133,8 +161,8 @@ EventOf(v, t, sh, off, tsh) ==
         tpi |-> tp]
 
 Init ==
-    /\ \E v \in Versions, t \in Types, off \in FullOffsets \cup LiteOffsets :
-       \E sh \in Shapes(Pool(t), off \notin FullOffsets) :
+    /\ \E v \in Versions, t \in Types, off \in FullOffsets \cup LiteOffsets \cup AllOnlyOffsets :
+       \E sh \in Shapes(Pool(t), ModeOf(off, v)) \cup ForeignShapes(t, Pool(t), ModeOf(off, v)) :
        \E tsh \in (IF <<"c", NestedKey>> \in sh THEN TpiShapes ELSE {"none"}) :
           /\ ver = v
           /\ e = EventOf(v, t, sh, off, tsh)
@@ -197,7 +225,8 @@ PSanity ==
             /\ (e.type = "m.room.create" /\ A = 5 => r1.con = e.con)
             /\ (e.type = "other" => r1.con = EmptyFn)
             /\ ("origin" \in DOMAIN e.top => (("origin" \in DOMAIN r1.top) = (A < 5)))
-            /\ ({"unsigned", "age_ts", "redacts", "foo"} \cup CaseVariants) \cap DOMAIN r1.top = {}
+            /\ (TopExtras \cup CaseVariants) \cap DOMAIN r1.top = {}
+            /\ (~KeepAllContent(A, e.type) => DOMAIN r1.con \cap Foreign(e.type) = {})
 
 
 Emit ==
